@@ -3,7 +3,10 @@
 // files built with the "verif" build tag; without the tag no call site exists.
 package verifhook
 
-import "unsafe"
+import (
+	"time"
+	"unsafe"
+)
 
 // Kinds of points.
 const (
@@ -27,3 +30,7 @@ func Point(kind uint8, loc unsafe.Pointer) {
 		s(kind, loc)
 	}
 }
+
+// Clock, when set, replaces the wall clock that Eval reads once per
+// evaluation for $now() and $millis().
+var Clock func() time.Time
